@@ -591,7 +591,10 @@ class Effect(DaeObject):
                     floatnode = paramnode.find(collada.tag('float4'))
                 paramid = paramnode.get('sid')
                 if floatnode is not None and paramid is not None and len(paramid) > 0 and floatnode.text is not None:
-                    values = tuple([float(v) for v in floatnode.text.split()])
+                    try:
+                        values = tuple([float(v) for v in floatnode.text.split()])
+                    except ValueError:
+                        raise DaeMalformedError('Corrupted float values in effect parameter %s' % paramid)
                     if floatnode.tag == collada.tag('float') and len(values) == 1:
                         localscope[paramid] = values[0]
                     else:
